@@ -108,4 +108,31 @@ def nested_probes():
 for name, e in nested_probes():
     o = outcome(e.to_string)
     out.append(['<nested>', name, '', '', 'ok', True, o if len(o) < 130 else o[:100] + '...' + str(len(o)) + ':' + str(sum(map(ord, o)))])
+# an element that has LEFT its parent (removed, unset by shortcut, replaced out) is on its own again: whatever happens to the former parent afterwards
+# (nested into a measure, into a part) must not show in it; compared with a twin that was never attached
+def released_probes():
+    def pitch():
+        pi = XE.XMLPitch(); pi.add_child(XE.XMLStep('C')); pi.add_child(XE.XMLOctave(4))
+        return pi
+    res = []
+    for checked in (True, False):
+        for how in ('remove', 'unset', 'replace'):
+            nt = XE.XMLNote(xsd_check=checked)
+            pi = nt.add_child(pitch()); nt.add_child(XE.XMLDuration(1))
+            if how == 'remove':
+                nt.remove(pi)
+            elif how == 'unset':
+                nt.xml_pitch = None
+            else:
+                nt.replace_child(pi, pitch())
+            before = outcome(pi.to_string)
+            ms = XE.XMLMeasure(number='1', xsd_check=False); ms.add_child(nt)
+            pt = XE.XMLPart(id='P1', xsd_check=False); pt.add_child(ms)
+            after = outcome(pi.to_string)
+            twin = outcome(pitch().to_string)
+            res.append(('pitch after %s from a %s note' % (how, 'checked' if checked else 'unchecked'), before, after, twin, pi.get_parent() is None))
+    return res
+for name, before, after, twin, orphan in released_probes():
+    ok = before == after == twin and orphan
+    out.append(['<released>', name, '', '', 'ok' if ok else 'DIFFERS', True, '' if ok else 'parent is None: %s; alone %r / after the former parent was nested %r / twin %r' % (orphan, before[:80], after[:80], twin[:80])])
 json.dump(out, sys.stdout)
